@@ -446,8 +446,34 @@ func c29Run(c c29Case) (res verifkit.Result) {
 			return verifkit.Fail("route:mismatch", "findRoute(%q): unexpected error %v", c.Host, err)
 		} else {
 			// 4. candidate list (sequential strategy = config order)
+			// Each distinct backend is offered once per attempt (C30): an entry
+			// whose substituted address is a spelling of an earlier candidate
+			// (case, default port, duplicate) is not offered again.
+			c29Seen := map[string]bool{}
 			for bi, tmpl := range c.Routes[wi].Backends {
 				want, amb := c29RefSubst(tmpl, groups)
+				if amb {
+					// cannot predict this candidate, hence not whether later ones
+					// are spellings of it: stop judging the list here.
+					lab("subst:ambiguous-skipped")
+					goto doneBackends
+				}
+				if !amb {
+					canon := strings.ToLower(want)
+					if pa, perr := netutil.Parse(want, "tcp"); perr == nil {
+						canon = strings.ToLower(pa.String())
+						if _, port := netutil.HostPort(pa); port == 0 {
+							canon = strings.ToLower(net.JoinHostPort(pa.String(), "25565"))
+						}
+					} else {
+						canon = want
+					}
+					if c29Seen[canon] {
+						lab("duplicate-backend-skipped")
+						continue
+					}
+					c29Seen[canon] = true
+				}
 				got, _, ok := next()
 				if !ok {
 					return verifkit.Fail("backends:missing", "candidate %d of %d missing (template %q)", bi, len(c.Routes[wi].Backends), tmpl)
